@@ -3,7 +3,7 @@
     Every theorem is generic in the configuration that translate/c14_dmx.py regenerates from dmx.py
     (Gen/DmxCodes_gen.v: [gen_cfg], [gen_kv1]); the check discharges the boolean premises for the generated
     instance on every run. *)
-From Coq Require Import NArith ZArith QArith List Bool.
+From Coq Require Import NArith ZArith QArith Qabs List Bool.
 From SV Require Import Bin.Struct Fmt.DmxCodes Fmt.DmxCodesProofs Fmt.DmxBin Fmt.DmxBinProofs Fmt.DmxKv1 Fmt.DmxKv1Proofs
   Fmt.DmxScalar Fmt.DmxScalarProofs Text.Str Text.Escape Text.Tokenizer Text.TokGen Fmt.DmxKv2 Fmt.DmxKv2Proofs Fmt.DmxKv2Inst Gen.DmxCodes_gen.
 Import ListNotations.
@@ -93,6 +93,17 @@ Theorem time_roundtrip_premise_satisfiable :
   std_model_on_ticks Qmult Qdiv 10000 /\ (forallb std_model_check tick_grid = true).
 Proof. split; [exact std_model_exact|exact std_model_rn64_grid]. Qed.
 
+(** The executable model of binary64 round-to-nearest-even, [rn64] (compared with CPython's float [*] and [/] on every
+    run), meets the standard model at every rational: |rn64 x - x| <= 2^-53 |x|. *)
+Theorem binary64_rounding_error : forall x : Q, (Qabs (rn64 x - x) <= u53 * Qabs x)%Q.
+Proof. exact rn64_error. Qed.
+
+(** Hence TIME needs no hypothesis about floating point inside the model: with [fmul64] / [fdiv64] (= [rn64] of the exact
+    product / quotient) every 32-bit tick count survives [round((k / S) * S)], for every positive scale [S]. *)
+Theorem time_roundtrip_binary64 : forall S : Z, (0 < S)%Z -> forall k, int32_ok k = true ->
+  q_round_he (fmul64 (fdiv64 (inject_Z k) (inject_Z S)) (inject_Z S)) = k.
+Proof. exact time_ticks_exact_rn64. Qed.
+
 (** [int()] instead of [round()] is refuted by a computed witness: 3 / 10000.0 is written as 2 ticks. *)
 Theorem time_truncation_loses_a_tick :
   q_round RTrunc (fmul64 (fdiv64 3 10000) 10000) = 2%Z /\ q_round RNearestEven (fmul64 (fdiv64 3 10000) 10000) = 3%Z.
@@ -110,6 +121,15 @@ Theorem scalar_codec_roundtrip :
     exists bs, encode_sval fmul cfg t v = Some bs /\ length bs = calcsize (wire_kinds t) /\
                decode_sval fdiv anorm cfg t bs = Some v.
 Proof. exact scalar_codec_roundtrip_gen. Qed.
+
+(** The same with binary64 arithmetic as modelled by [rn64]: only the FrozenAngle normalisation stays a hypothesis. *)
+Theorem scalar_codec_roundtrip_binary64 :
+  forall (anorm : N -> N) (cfg : scalarcfg),
+    scalar_cfg_ok cfg = true -> (forall b, (b < ANGLE_360)%N -> anorm b = b) ->
+    forall t v, sval_rep fdiv64 cfg t v ->
+    exists bs, encode_sval fmul64 cfg t v = Some bs /\ length bs = calcsize (wire_kinds t) /\
+               decode_sval fdiv64 anorm cfg t bs = Some v.
+Proof. exact scalar_codec_roundtrip_rn64. Qed.
 
 Theorem scalar_codec_premises_satisfiable :
   (scalar_cfg_ok pinned_scalar = true) /\ (sizes_match_formats pinned_scalar pinned_cfg = true).
